@@ -21,6 +21,7 @@ import (
 //	block Kind      a channel operation that never completes   recv recv2 send range select
 //	lit Body        func() { Body }()                          closure made and called on the spot
 //	golit Body      go func() { Body }()
+//	retrecv         w += func() int { return <-c }()           a receive that is the operand of a return (50c4f88)
 type Stmt struct {
 	Op   string `json:"op"`
 	N    int    `json:"n,omitempty"`
@@ -33,9 +34,11 @@ type Stmt struct {
 type Fn struct {
 	Method bool `json:"method,omitempty"` // declared as a method of type R
 	Plain  bool `json:"plain,omitempty"`  // compiled by a plain Eval before the EvalWithContext call (F26 class)
-	// Earlier: a closure stored in a package-level variable by an EARLIER, completed EvalWithContext call; its cloned
-	// frame keeps the done channel of that evaluation (F09-2 class)
+	// Earlier: a function value stored by an EARLIER, completed EvalWithContext call (before 1578873 its frame kept
+	// the done channel of that evaluation: F09-2). EKind says where it is stored: "" a closure in a package-level
+	// variable, "field" a closure in a struct field, "map" a closure in a map, "mv" a method value bound by an init function.
 	Earlier bool   `json:"earlier,omitempty"`
+	EKind   string `json:"ekind,omitempty"`
 	Body    []Stmt `json:"body"`
 }
 
@@ -135,6 +138,13 @@ func (r *renderer) stmts(b *strings.Builder, body []Stmt, fns []Fn, plain bool, 
 			case "select":
 				fmt.Fprintf(b, "%sselect {\n%scase <-%s:\n%scase %ss <- 1:\n%s}\n", ind, ind, c, ind, c, ind)
 			}
+		case "retrecv":
+			id := r.tick(tickRole{Role: "block", Kind: "recv", Plain: plain})
+			c := fmt.Sprintf("c%d", id)
+			// (the channel is not handed to the host: a receive that delivers a value to a return statement panics,
+			// whatever the cancellation does — an unrelated defect —, so the operation is never completed)
+			fmt.Fprintf(b, "%s%s := make(chan int)\n%sh.RegN()\n%sh.T(%d)\n", ind, c, ind, ind, id)
+			fmt.Fprintf(b, "%sw += func() int { return <-%s }()\n", ind, c)
 		case "lit":
 			fmt.Fprintf(b, "%sfunc() {\n%s\th.T(%d)\n", ind, ind, r.tick(tickRole{Role: "lit"}))
 			r.stmts(b, s.Body, fns, plain, ind+"\t")
@@ -152,6 +162,12 @@ func fnName(fns []Fn, i int) string {
 		return fmt.Sprintf("R{}.m%d", i)
 	}
 	if i >= 0 && i < len(fns) && fns[i].Earlier {
+		switch fns[i].EKind {
+		case "field":
+			return fmt.Sprintf("H%d.f", i)
+		case "map":
+			return fmt.Sprintf("M%d[\"k\"]", i)
+		}
 		return fmt.Sprintf("E%d", i)
 	}
 	return fmt.Sprintf("fn%d", i)
@@ -192,9 +208,18 @@ func render(p Prog) rendered {
 		src.WriteString("package main\n\nimport \"h\"\n\n")
 	}
 	fn := func(b *strings.Builder, i int, f Fn) {
+		tail := "}\n\n"
 		switch {
 		case f.Method:
 			fmt.Fprintf(b, "func (R) m%d() int {\n", i)
+		case f.Earlier && f.EKind == "field":
+			fmt.Fprintf(b, "var H%d = struct{ f func() int }{f: func() int {\n", i)
+			tail = "}}\n\n"
+		case f.Earlier && f.EKind == "map":
+			fmt.Fprintf(b, "var M%d = map[string]func() int{\"k\": func() int {\n", i)
+			tail = "}}\n\n"
+		case f.Earlier && f.EKind == "mv":
+			fmt.Fprintf(b, "type RE%d struct{}\n\nvar E%d func() int\n\nfunc init() { E%d = RE%d{}.m }\n\nfunc (RE%d) m() int {\n", i, i, i, i, i)
 		case f.Earlier:
 			fmt.Fprintf(b, "var E%d = func() int {\n", i)
 		default:
@@ -202,7 +227,7 @@ func render(p Prog) rendered {
 		}
 		fmt.Fprintf(b, "\th.T(%d)\n\tw := 0\n", r.tick(tickRole{Role: "fn", Fn: i, Earlier: f.Earlier}))
 		r.stmts(b, f.Body, p.Fns, f.Plain, "\t")
-		b.WriteString("\treturn w + 1\n}\n\n")
+		b.WriteString("\treturn w + 1\n" + tail)
 	}
 	needR, needRPlain := false, false
 	for _, f := range p.Fns {
@@ -256,7 +281,8 @@ func render(p Prog) rendered {
 	return rendered{Prelude: pre.String(), Earlier: ear.String(), Src: src.String(), Ticks: r.ticks}
 }
 
-// ---- classes (decidable predicates of the input) ------------------------------------------------
+// ---- shapes (decidable predicates of the input; reported as distribution buckets only: the findings they were
+// the class labels of — F26, F09-2, F09-1 — are repaired, the shapes stay in the default streams) -----------
 
 // hasPlainChanOp: the program has a channel operation whose variant is chosen when the closure is
 // generated (recv, recv2, send) inside a function compiled by a plain Eval.
@@ -264,7 +290,7 @@ func hasPlainChanOp(p Prog) bool {
 	var walk func(body []Stmt) bool
 	walk = func(body []Stmt) bool {
 		for _, s := range body {
-			if s.Op == "block" && (s.Kind == "recv" || s.Kind == "recv2" || s.Kind == "send") {
+			if (s.Op == "block" && (s.Kind == "recv" || s.Kind == "recv2" || s.Kind == "send")) || s.Op == "retrecv" {
 				return true
 			}
 			if walk(s.Body) {
@@ -286,7 +312,7 @@ func hasEarlierChanOp(p Prog) bool {
 	var walk func(body []Stmt) bool
 	walk = func(body []Stmt) bool {
 		for _, s := range body {
-			if s.Op == "block" || walk(s.Body) {
+			if s.Op == "block" || s.Op == "retrecv" || walk(s.Body) {
 				return true
 			}
 		}
@@ -302,7 +328,8 @@ func hasEarlierChanOp(p Prog) bool {
 
 // reexecGolit: some `go func() {…}()` statement of the program can be executed more than once (it sits in a
 // loop, or in a function that is referenced twice or from a loop). While an earlier activation of the literal
-// is blocked, the next one shares its slot in the enclosing frame (F09-1): gated out of the generated family.
+// is blocked, the next one shares its slot in the enclosing frame (F09-1, repaired by d26dd9e: the shape is no
+// longer gated out of the generated family).
 func reexecGolit(p Prog) bool {
 	// how often may each function run: 0, 1, many (2)
 	refs := make([]int, len(p.Fns))
@@ -433,8 +460,9 @@ func fixedFamily() []Prog {
 	return ps
 }
 
-// findingFamily: programs in the classes of the known findings (run, recorded, suppressed by class).
-func findingFamily() []Prog {
+// repairedFamily: programs of the shapes of the findings repaired in round 2 (F09, F26, F09-2, F09-1 and the two
+// adjacent defects 50c4f88 and ba001d8): ordinary members of the family now, nothing about them is suppressed.
+func repairedFamily() []Prog {
 	var ps []Prog
 	// F09: cancellation inside a global initialiser or an init function
 	p := prog("init-list", st("tick"), loop(2, st("work")))
@@ -456,26 +484,51 @@ func findingFamily() []Prog {
 	p = prog("plain-main-blocks", st("tick"), call(0))
 	p.Fns = []Fn{plainOf(block("recv"))}
 	ps = append(ps, p)
-	// F09-2: channel operations in closures made by an earlier evaluation (every kind: the done channel is stale)
-	for _, k := range []string{"recv", "send", "range", "select"} {
+	// an init function that blocks for ever: the quiet point lies in a non-last entry, main is pending
+	p = prog("init-blocks", st("tick"), st("work"))
+	p.Inits = [][]Stmt{{spawn(0), st("tick"), block("select")}}
+	p.Fns = []Fn{fnOf(st("work"), block("recv2"))}
+	ps = append(ps, p)
+	// F09-2: channel operations in function values stored by an earlier evaluation (closure in a variable, in a
+	// struct field, in a map; method value bound by an init function), run in a goroutine and by main itself
+	for i, k := range []string{"recv", "send", "range", "select", "recv2"} {
+		ek := []string{"", "field", "map", "mv", ""}[i]
 		p = prog("earlier-"+k, spawn(0), st("tick"), forever(st("work")))
-		p.Fns = []Fn{{Earlier: true, Body: []Stmt{st("work"), block(k)}}}
+		p.Fns = []Fn{{Earlier: true, EKind: ek, Body: []Stmt{st("work"), block(k)}}}
 		ps = append(ps, p)
 	}
+	p = prog("earlier-called-by-main", st("tick"), call(0), st("tick"), call(1))
+	p.Fns = []Fn{{Earlier: true, EKind: "field", Body: []Stmt{st("work"), st("tick")}}, {Earlier: true, EKind: "map", Body: []Stmt{st("work"), block("select")}}}
+	ps = append(ps, p)
+	p = prog("earlier-host-callback", hostcb(0), st("tick"), forever(hostcb(1)))
+	p.Fns = []Fn{{Earlier: true, Body: []Stmt{st("tick"), st("work")}}, {Earlier: true, EKind: "mv", Body: []Stmt{st("work")}}}
+	ps = append(ps, p)
+	// F09-1: `go func(){…}()` executed again while earlier activations are blocked
+	ps = append(ps, prog("golit-loop", loop(3, golit(block("recv")), st("work")), forever(st("work"))))
+	ps = append(ps, prog("golit-loop-select", loop(2, golit(st("work"), block("select")), golit(block("range"))), st("tick"), block("recv")))
+	p = prog("golit-in-called-fn", loop(3, call(0)), forever(st("work")))
+	p.Fns = []Fn{fnOf(golit(block("send")), st("work"))}
+	ps = append(ps, p)
+	// 50c4f88: a receive that is the operand of a return statement, blocked at the cancellation. What follows it is
+	// never observed (see render), so it is only used where nothing can follow after a cancellation: in main and in
+	// declared functions started by `go f()` (a goroutine started through a function value can be revived: F09-3).
+	p = prog("return-recv", spawn(0), st("tick"), spawn(1), forever(st("work")))
+	p.Fns = []Fn{fnOf(st("work"), st("retrecv"), st("tick")), fnOf(call(2), st("work")), fnOf(st("tick"), st("retrecv"))}
+	ps = append(ps, p)
+	ps = append(ps, prog("return-recv-main", st("tick"), st("retrecv"), st("tick")))
+	p = prog("return-recv-plain", spawn(0), st("tick"), forever(st("work")))
+	p.Fns = []Fn{plainOf(st("work"), st("retrecv"))}
+	ps = append(ps, p)
 	return ps
 }
 
 type genCfg struct {
-	inits, plain bool
+	inits, plain, earlier bool
 }
 
-// randomProg builds a program of bounded size from the seed (inside the gates of the family).
+// randomProg builds a program of bounded size from the seed.
 func randomProg(r *rand.Rand, name string, cfg genCfg) Prog {
-	for {
-		if p := randomProg1(r, name, cfg); !reexecGolit(p) {
-			return p
-		}
-	}
+	return randomProg1(r, name, cfg)
 }
 
 func randomProg1(r *rand.Rand, name string, cfg genCfg) Prog {
@@ -492,6 +545,9 @@ func randomProg1(r *rand.Rand, name string, cfg genCfg) Prog {
 				callee = self + 1 + r.Intn(nf-self-1)
 				if plain && !p.Fns[callee].Plain {
 					callee = -1
+				}
+				if callee >= 0 && self >= 0 && p.Fns[self].Earlier && !p.Fns[callee].Plain && !p.Fns[callee].Earlier {
+					callee = -1 // the earlier evaluation cannot name a function the later one declares
 				}
 			}
 			switch c := r.Intn(12); {
@@ -511,7 +567,7 @@ func randomProg1(r *rand.Rand, name string, cfg genCfg) Prog {
 				out = append(out, lit(body(depth+1, self, false, plain)...))
 			case c == 7 && depth < 2:
 				out = append(out, golit(append(body(depth+1, self, false, plain), block(blockKinds[r.Intn(5)]))...))
-			case c == 8 && !plain:
+			case c == 8 && !plain && (self < 0 || !p.Fns[self].Earlier):
 				out = append(out, rec(r.Intn(3)))
 			default:
 				out = append(out, st("work"))
@@ -526,8 +582,22 @@ func randomProg1(r *rand.Rand, name string, cfg genCfg) Prog {
 			p.Fns[i].Plain = true
 		}
 	}
+	if cfg.earlier {
+		// function values stored by an earlier evaluation: they may call only later earlier / plain ones, so they are
+		// the highest-numbered functions that are not plain
+		for i := nf - 1; i >= 0; i-- {
+			if p.Fns[i].Plain {
+				continue
+			}
+			if r.Intn(2) == 0 {
+				break
+			}
+			p.Fns[i].Earlier = true
+			p.Fns[i].EKind = []string{"", "field", "map", "mv"}[r.Intn(4)]
+		}
+	}
 	for i := nf - 1; i >= 0; i-- {
-		p.Fns[i].Method = !p.Fns[i].Plain && r.Intn(4) == 0
+		p.Fns[i].Method = !p.Fns[i].Plain && !p.Fns[i].Earlier && r.Intn(4) == 0
 		b := body(0, i, false, p.Fns[i].Plain)
 		if r.Intn(2) == 0 {
 			b = append(b, block(blockKinds[r.Intn(5)]))
@@ -557,10 +627,6 @@ func randomProg1(r *rand.Rand, name string, cfg genCfg) Prog {
 		p.Main = append(p.Main, forever(st("work")))
 	case 1:
 		p.Main = append(p.Main, block(blockKinds[r.Intn(5)]))
-	}
-	if cfg.inits {
-		// with a run list the later entries run to their end after a cancellation (F09): keep them finite
-		p.Main = terminating(p, p.Main)
 	}
 	return p
 }
